@@ -207,7 +207,7 @@ fn main() {
     );
     run.assume("names are ordinary segments (no NUL); reference normaliser mc/core/src/model/pkgpath.rs; pattern validity from the composed pattern model");
 
-    let n = run.pick(7, 8);
+    let n = run.pick(7, 9);
     run.bound(format!("all {} segment sequences of <= {} segments x {{relative, leading '/'}}", seqs::count(SEG.len(), n), n));
     seqs::par_seqs(&run, "C19 paths", SEG.len(), n, 2, |_| false, |s, t| {
         let joined: Vec<&str> = s.iter().map(|i| SEG[*i]).collect();
